@@ -788,13 +788,17 @@ def native_search(workdir, ob, seconds=25):
          'static uint64_t pick() { uint64_t r = rnd(); switch (r % 8) { case 0: return rnd() % 16; case 1: return (1ULL << (rnd() % 64)) + (rnd() % 5) - 2; '
          'case 2: return ~0ULL - (rnd() % 8); case 3: return rnd() >> (rnd() % 64); case 4: return (rnd() % 0x100000000ULL) + 0xfffffff0ULL; default: return rnd(); } }',
          ns.get('helpers', ''),
-         'int main() { alarm(%d);' % (seconds + 5), '  for (long it = 0; it < 400000000L; ++it) {']
+         'static unsigned long long cur_in[8]; static void on_trap(int sig) { char buf[256]; int k = std::snprintf(buf, sizeof buf, "FOUND %s (signal %%d in the real code)\\n", %s, sig); '
+         'if (k > 0) { ssize_t w_ = write(1, buf, (size_t)k); (void)w_; } _exit(1); }' % (' '.join('%llx' for _ in ins), ', '.join('cur_in[%d]' % i for i in range(len(ins)))),
+         'int main() { alarm(%d); signal(SIGFPE, on_trap); signal(SIGSEGV, on_trap); signal(SIGILL, on_trap); signal(SIGABRT, on_trap);' % (seconds + 5),
+         '  for (long it = 0; it < 400000000L; ++it) {']
     for t, n in ins: L.append('    %s %s = (%s)pick();' % (t, n, t))
     for k, tup in enumerate(ns.get('seeds', [])):     # inputs known to have failed once are tried first
         L.append('    if (it == %d) { %s }' % (k, ' '.join('%s = (%s)%dULL;' % (n, t, v) for (t, n), v in zip(ins, tup))))
     L.append('    if (it %% 3 == 1 && it > 64) { %s }' % ' '.join('%s = %s;' % (n, ins[0][1]) for t, n in ins[1:2]))   # equal operands now and then
     if ns.get('adjust'): L.append('    if (it >= %d) { %s }' % (len(ns.get('seeds', [])), ns['adjust']))     # steer random picks into the precondition
     L.append('    if (!(%s)) continue;' % ns['pre'])
+    L.append('    %s' % ' '.join('cur_in[%d] = (unsigned long long)%s;' % (i, n) for i, (t, n) in enumerate(ins)))
     L.append('    %s r = %s;' % (ns['ret'], ns['call']))
     L.append('    if (!(%s)) { std::printf("FOUND %s\\n", %s); return 1; }' % (ns['post'], ' '.join('%llx' for _ in ins), ', '.join('(unsigned long long)%s' % n for t, n in ins)))
     L.append('    if ((it & 0xffff) == 0 && it > 0) { static time_t t0 = 0; if (!t0) t0 = time(0); if (time(0) - t0 > %d) break; }' % seconds)
@@ -806,8 +810,8 @@ def native_search(workdir, ob, seconds=25):
     rc, out, err, dt = run([exe], timeout=seconds + 15)
     m = re.search(r'FOUND (.*)', out or '')
     if m:
-        vals = m.group(1).split()
-        return {'found': True, 'inputs_hex': {n: v for (t, n), v in zip(ins, vals)}, 'oracle': ns['post'], 'call': ns['call'], 'cmd': exe,
+        vals = m.group(1).split()[:len(ins)]
+        return {'found': True, 'how': m.group(1), 'inputs_hex': {n: v for (t, n), v in zip(ins, vals)}, 'oracle': ns['post'], 'call': ns['call'], 'cmd': exe,
                 'confirmed': True, 'source': src}
     return {'found': False, 'note': 'no failing input among the sampled ones (rc=%s%s)' % (rc, ', the real code did not return: alarm' if rc in (-14, 142) else '')}
 
